@@ -158,6 +158,13 @@ func (vc *VC) setupAndRun() *Exec {
 			// known finding: the contract is proved outside the carve-out
 			vc.assume(sNot(ev.evalBool(f.Expr)))
 		}
+		for k, lm := range spec.Lemmas {
+			ex.proveLemma(fmt.Sprintf("lemma[%d]", k+1), lm, func() *Eval {
+				e := ex.newEval(st, st)
+				ex.bindParams(e)
+				return e
+			}, "true")
+		}
 		if len(spec.PanicsWhen) > 0 {
 			var ps []string
 			for _, p := range spec.PanicsWhen {
@@ -288,4 +295,38 @@ func (ex *Exec) applyGhostUpdateEval(g *Clause, st *State, ev *Eval) {
 	}
 	rhs := ev.rval(ev.eval(rhsE))
 	ex.set(st, "G:"+name, ex.vc.vtSort(gt), rhs.T)
+}
+
+// proveLemma: `lemma forall v int, w... :: P` is proved by strong induction on its first (integer) variable:
+// for fresh v0, w0 the goal P(v0,w0) is proved under the hypothesis forall v, w :: 0 <= v && v < v0 ==> P(v,w).
+// (For v0 < 0 the hypothesis is vacuous, so those instances are proved outright; a minimal counterexample
+// v0 >= 0 is therefore impossible.) Afterwards the lemma is a fact. mk returns a fresh evaluator for the state
+// the lemma speaks about (function entry, or a loop cut after the invariants have been assumed).
+func (ex *Exec) proveLemma(name string, lm *Clause, mk func() *Eval, guard string) {
+	q, ok := lm.Expr.(EQuant)
+	if !ok || !q.Forall || len(q.Vars) == 0 {
+		ex.vc.errorf("%s: lemma must be a forall formula", lm.Src)
+		return
+	}
+	ev := mk()
+	vt := ev.resolveType(q.Vars[0].Type)
+	if ex.vc.vtSort(vt) != "Int" {
+		ex.vc.errorf("%s: the induction variable of a lemma must be an integer", lm.Src)
+		return
+	}
+	sub := mk()
+	k0name := "$lemma_k0"
+	for i, v := range q.Vars {
+		t := ev.resolveType(v.Type)
+		c := ex.vc.fresh("lem_"+sanitize(v.Name), ex.vc.vtSort(t))
+		sub.vars[v.Name] = TV{T: c, Ty: t}
+		if i == 0 {
+			ev.vars[k0name] = TV{T: c, Ty: t}
+		}
+	}
+	ih := EQuant{Forall: true, Vars: q.Vars, Body: EBin{"==>", EBin{"&&", EBin{"<=", EInt{"0"}, EIdent{q.Vars[0].Name}}, EBin{"<", EIdent{q.Vars[0].Name}, EIdent{k0name}}}, q.Body}}
+	ex.vc.assume(sImp(guard, ev.evalBool(ih)))
+	goal := sub.evalBool(q.Body)
+	ex.vc.oblige(name, lm.Tag, ex.fn.Pos(), guard, goal, "lemma (strong induction on "+q.Vars[0].Name+"): "+lm.Text)
+	ex.vc.assume(sImp(guard, mk().evalBool(lm.Expr)))
 }
